@@ -52,9 +52,34 @@ def r1_parent_owner(m):
             r.ob(False)
             r.fail("%s:%s" % key, "%s.%s assigns a node's parent (`%s`); only _set_parent/Base.__init__ own that link"
                    % (key[0], key[1], A.text(n)[:60]), m.loc(f, n))
-    for need in (("fparser.two.utils", "_set_parent"), ("fparser.two.utils", "Base.__init__")):
-        if need not in seen:
-            r.error("%s.%s no longer assigns .parent (anchor vanished)" % need)
+    if ("fparser.two.utils", "_set_parent") not in seen:
+        r.error("fparser.two.utils._set_parent no longer assigns .parent (anchor vanished)")
+    if ("fparser.two.utils", "Base.__init__") not in seen:
+        # equivalent: a class-level default (a fresh object then starts without a parent just the same)
+        own = m.classes[m.key("Base", UTILS)]["own"].get("parent")
+        r.instances += 1
+        if own is None or own.get("kind") != "data":
+            r.error("neither Base.__init__ nor a class-level default gives a new node parent None (anchor vanished)")
+        else:
+            r.ob(True, "Base.parent is a class-level default")
+    # the link is unconditional: whatever parent a (re-used or re-matched) node had before, it is overwritten
+    sp = m.need_func(UTILS, "_set_parent")
+    P = A.parents(sp.node)
+    for n in A.body_nodes(sp.node):
+        if isinstance(n, ast.Assign) and any(isinstance(t, ast.Attribute) and t.attr == "parent" for t in n.targets):
+            r.instances += 1
+            x, guards = n, []
+            while x in P and P[x] is not sp.node:
+                p_ = P[x]
+                if isinstance(p_, (ast.If, ast.While)) and x is not p_.test:
+                    guards.append(p_.test)
+                x = p_
+            bad = [g for g in guards if any(isinstance(y, ast.Attribute) and y.attr in ("parent", "_parent") for y in ast.walk(g))]
+            r.ob(not bad, "_set_parent: `%s` under guards %s" % (A.text(n), [A.text(g)[:30] for g in guards]))
+            if bad:
+                r.fail("_set_parent|conditional-on-old-parent", "_set_parent only links a child whose current parent passes `%s`: a node that "
+                       "was already linked (statements re-matched after an abandoned labelled-DO attempt, the shortened EQUIVALENCE "
+                       "list) keeps its stale parent" % A.text(bad[0])[:50], m.loc(sp, n))
     return r
 
 
@@ -387,8 +412,39 @@ def r4_walk(m):
     return r
 
 
+def r6_raw_construction(m):
+    r = RuleResult("C10.R6", "parse-tree nodes are only created through their class constructor: raw object construction happens inside a "
+                             "__new__ method on `cls`, and node objects are never shallow-copied")
+    r.floor = 5
+    base = m.key("Base", UTILS)
+    for (p, q), f in sorted(m.funcs.items()):
+        if "/tests/" in p or not ("/two/" in p or p.endswith("common/readfortran.py")):
+            continue
+        for c in A.calls(f.node):
+            d = A.dotted(c.func) or ""
+            raw = d == "object.__new__" or (d.endswith(".__new__") and d.startswith("super()")) or \
+                (isinstance(c.func, ast.Attribute) and c.func.attr == "__new__" and isinstance(c.func.value, ast.Call)
+                 and A.dotted(c.func.value.func) == "super")
+            if raw:
+                r.instances += 1
+                in_new = q.endswith(".__new__") and f.cls_node is not None
+                on_cls = bool(c.args) and A.text(c.args[0]) == "cls" or (not c.args)
+                ok = in_new and on_cls
+                r.ob(ok, "%s: `%s`" % (q, A.text(c)[:40]))
+                if not ok:
+                    r.fail("%s|raw-new|%s" % (q, A.text(c)[:30]), "%s builds an object with `%s` outside a __new__ method: a parse-tree node made that "
+                           "way skips Base.__new__, so its children are never given it as parent (they keep whatever parent they had)"
+                           % (q, A.text(c)[:50]), m.loc(f, c))
+            if d in ("copy.copy", "copy") and c.args and not isinstance(c.args[0], (ast.List, ast.Dict, ast.Tuple, ast.Constant)):
+                r.instances += 1
+                r.ob(False)
+                r.fail("%s|shallow-copy|%s" % (q, A.text(c)[:30]), "%s makes a shallow copy (`%s`) in the parser/reader: a shallow copy of a parse-tree "
+                       "node shares its children, whose parent stays the original" % (q, A.text(c)[:50]), m.loc(f, c))
+    return r
+
+
 def run(m, tier):
-    results = [r1_parent_owner(m), r2_parent_on_construction(m), r3_children(m), r4_walk(m)]
+    results = [r1_parent_owner(m), r2_parent_on_construction(m), r3_children(m), r4_walk(m), r6_raw_construction(m)]
     from rules import shapes_rules
     results += shapes_rules.c10_rules(m)
     expl = ("Decides structural clauses of C10: who assigns .parent; Base.__new__ parents the children of every node it builds before "
@@ -396,5 +452,5 @@ def run(m, tier):
             "stores what it is given into items/content (what `children` returns) and later stores only rearrange a node's own items; "
             "_set_parent and walk both fully descend into lists and tuples, walk is a recursive pre-order traversal in list order, "
             "get_root follows .parent; matchers build each returned node by a fresh constructor call (no node object reused). "
-            "Does NOT decide absence of stale parents after backtracking through the per-line cache.")
+            "raw object construction only inside __new__ on cls and no shallow copies in the parser/reader; _set_parent links unconditionally. Does NOT decide absence of stale parents after backtracking through the per-line cache.")
     return results, expl
